@@ -113,12 +113,31 @@ func rt_20(c *core.Ctx, p *core.Prog) {
 					foreign = append(foreign, fmt.Sprintf("%s (%s)", valueLabel(t.ptr), p.Pos(t.iff.Pos())))
 				}
 			}
+			// optional fields (T.HasF exists): presence is carried by non-nil alone; a zero test on the value drops present-but-zero
+			if methodOf(core.RecvNamed(f).Obj().Type(), "Has"+strings.TrimPrefix(f.Name(), "Set")) != nil {
+				for _, b := range fn.Blocks {
+					iff := core.IfOf(b)
+					if iff == nil {
+						continue
+					}
+					subj, zeroOnTrue, ok := zeroCond(iff.Cond)
+					if !ok || !core.GuardedBy(iff, !zeroOnTrue, ci) {
+						continue
+					}
+					sv := subj
+					if core.DerivesFrom(args[0], func(x ssa.Value) bool { return x == sv || core.SameValue(x, sv) }) || core.DerivesFrom(subj, func(x ssa.Value) bool {
+						return core.DerivesFrom(args[0], func(y ssa.Value) bool { return y == x && !isConst(x) })
+					}) {
+						foreign = append(foreign, fmt.Sprintf("a non-zero test of the value itself (%s)", p.Pos(iff.Pos())))
+					}
+				}
+			}
 			if os.Getenv("OTELCHECK_DEBUG") != "" && len(foreign) > 0 {
 				fmt.Println("RT.20", key, foreign)
 			}
 			c.Check(len(foreign) == 0, key, p.Pos(ci.Pos()), core.FuncName(fn),
 				"restored unconditionally or under guards on its own value",
-				fmt.Sprintf("%s is restored only when %s is non-nil — a pointer the value does not derive from: rows without that other data lose the field (decoded as zero)", k, strings.Join(foreign, ", ")))
+				fmt.Sprintf("%s is restored only under %s — a condition that is not the presence of the value itself: rows without that other data (or with a present zero) lose the field", k, strings.Join(foreign, ", ")))
 		})
 	}
 	c.Stats["RT.20 setter calls"] = n
@@ -129,3 +148,5 @@ func init() {
 		register(prop, &core.Rule{ID: "RT.20", Title: "restores are not conditional on foreign data: a decoder setter is guarded only by tests on its own value", Mod: core.ModRoot, Floor: 10, FloorBy: map[string]int{"C01": 20, "C02": 10, "C03": 40}, Run: rt_20})
 	}
 }
+
+func isConst(v ssa.Value) bool { _, ok := v.(*ssa.Const); return ok }
